@@ -356,7 +356,20 @@ func c05LimRandom(out *verifh.Out, r *verifh.Rand, size int) {
 	out.Case(c.line)
 }
 
+var c05Out *verifh.Out
+
+// A mutated implementation may leave goroutines parked for ever (synctest then
+// reports a deadlock when the bubble ends) or panic in a caller; neither should
+// take the cases recorded so far with it.
 func c05Bubble(t *testing.T, f func()) {
+	defer func() {
+		if r := recover(); r != nil {
+			if c05Out != nil {
+				c05Out.Cover("harness.bubble_ended_with_panic_or_deadlock")
+				c05Out.Comment(fmt.Sprintf("bubble panic: %v", r))
+			}
+		}
+	}()
 	synctest.Test(t, func(t *testing.T) { f() })
 }
 
@@ -366,6 +379,7 @@ func TestVerifC05(t *testing.T) {
 		t.Fatal(err)
 	}
 	defer out.Close()
+	c05Out = out
 	thorough := verifh.Tier() == "thorough"
 	r := verifh.NewRand(verifh.Seed())
 
